@@ -60,26 +60,20 @@ Proof.
 Qed.
 Print Assumptions C27_u128_compare_correct.
 
-(* Newton square root of U128 (u128.sw) and u256 (math.sw): for every model fuel, the loop either runs out
-   of fuel (excluded) or returns the integer square root; it never reverts or overflows for n > 0.
-   U128::sqrt(0) reverts (explicit assert, pinned by the in-language tests). *)
-Theorem C27_u128_sqrt_correct : forall fuel a, wf a ->
-  if val a =? 0 then u128_sqrt_fuel fuel default_flags a = Rev FAILED_ASSERT_SIGNAL
-  else match u128_sqrt_fuel fuel default_flags a with
-       | Ret r => wf r /\ val r * val r <= val a < (val r + 1) * (val r + 1)
-       | Oof => True
-       | _ => False
-       end.
-Proof. exact u128_sqrt_fuel_correct. Qed.
+(* Newton square root of U128 (u128.sw) and u256 (math.sw): the integer square root, never a revert or an
+   overflow for n > 0.  `u128_sqrt` / `u256_sqrt` run the loop with fuel 200 / 400, proved sufficient (the
+   distance to the root halves at every step).  U128::sqrt(0) reverts (explicit assert, pinned by the
+   in-language tests). *)
+Theorem C27_u128_sqrt_correct : forall a, wf a ->
+  if val a =? 0 then u128_sqrt default_flags a = Rev FAILED_ASSERT_SIGNAL
+  else exists r, u128_sqrt default_flags a = Ret r /\ wf r /\
+                 val r * val r <= val a < (val r + 1) * (val r + 1).
+Proof. exact u128_sqrt_correct. Qed.
 Print Assumptions C27_u128_sqrt_correct.
 
-Theorem C27_u256_sqrt_correct : forall fuel n, n < 2 ^ 256 ->
-  match u256_sqrt_fuel fuel default_flags n with
-  | Ret r => r * r <= n < (r + 1) * (r + 1)
-  | Oof => True
-  | _ => False
-  end.
-Proof. exact u256_sqrt_fuel_correct. Qed.
+Theorem C27_u256_sqrt_correct : forall n, n < 2 ^ 256 ->
+  exists r, u256_sqrt default_flags n = Ret r /\ r * r <= n < (r + 1) * (r + 1).
+Proof. exact u256_sqrt_correct. Qed.
 Print Assumptions C27_u256_sqrt_correct.
 
 (* u8..u64 sqrt is the MROO instruction, modelled by its integer meaning (not a statement about fuel-vm's
